@@ -22,21 +22,24 @@ type ScheduleSpec struct {
 	PullOnly   float64 // probability that a step is a bare pull
 	TxKinds    int
 	// membership script
-	Joins           int  // number of join requests spread over the run
-	Leaves          int  // number of leave requests
-	Refused         int  // number of joins the application refuses
-	Simultaneous    bool // issue two membership requests in the same step
-	Rejoin          bool // a node that left joins again
-	FastSyncJoiners bool
-	CallbackTxProb  float64 // application submits follow-up txs from inside the commit callback
-	KeepSilent      bool    // the silent minority stays silent (dead) during the fair suffix
-	DupProb         float64 // probability that a submission repeats the bytes of an earlier one
-	EmptyProb       float64 // probability that a submission is the empty transaction
-	FFResets        int     // number of times a validator loses its data and fast-syncs back
-	FFSingleServer  bool    // only one (random) peer answers fast-forward requests
-	PuppetProb      float64 // probability that a step is a puppet (Byzantine-content validator) exchange
-	CloseLeaves     bool    // the second leave request follows the first within a few steps
-	ResetInWindow   bool    // with CloseLeaves: the fast-forward resets follow the second leave closely, a join comes later
+	Joins             int  // number of join requests spread over the run
+	Leaves            int  // number of leave requests
+	Refused           int  // number of joins the application refuses
+	Simultaneous      bool // issue two membership requests in the same step
+	Rejoin            bool // a node that left joins again
+	FastSyncJoiners   bool
+	CallbackTxProb    float64 // application submits follow-up txs from inside the commit callback
+	KeepSilent        bool    // the silent minority stays silent (dead) during the fair suffix
+	DupProb           float64 // probability that a submission repeats the bytes of an earlier one
+	EmptyProb         float64 // probability that a submission is the empty transaction
+	FFResets          int     // number of times a validator loses its data and fast-syncs back
+	FFSingleServer    bool    // only one (random) peer answers fast-forward requests
+	PuppetProb        float64 // probability that a step is a puppet (Byzantine-content validator) exchange
+	CloseLeaves       bool    // the second leave request follows the first within a few steps
+	LagAtSecondChange bool    // with CloseOnCommit: a remaining validator lags from the second request on
+	CloseOnCommit     bool    // with CloseLeaves: the second leave is requested when the first is seen committed
+	CloseGap          int     // with CloseLeaves: the second leave comes 4..4+CloseGap steps after the first (default 16)
+	ResetInWindow     bool    // with CloseLeaves: the fast-forward resets follow the second leave closely, a join comes later
 }
 
 type shapeState struct {
@@ -125,11 +128,21 @@ func (nw *Network) RunSchedule(sp ScheduleSpec) {
 		place("refused")
 	}
 	firstLeave, closeSecond := -1, -1
+	pendingCloseLeave := 0
 	windowResets, windowSeen := 0, -1
 	for i := 0; i < sp.Leaves; i++ {
+		if i > 0 && sp.CloseLeaves && sp.CloseOnCommit && firstLeave >= 0 {
+			// issued when the first leave is seen committed somewhere (below)
+			pendingCloseLeave++
+			continue
+		}
 		if i > 0 && sp.CloseLeaves && firstLeave >= 0 {
 			// a second leave a few steps after the first: both changes pending at once
-			st := firstLeave + 4 + rng.Intn(16)
+			gap := 16
+			if sp.CloseGap > 0 {
+				gap = sp.CloseGap
+			}
+			st := firstLeave + 4 + rng.Intn(gap)
 			acts[st] = append(acts[st], mAct{"leave"})
 			closeSecond = st
 			continue
@@ -187,6 +200,46 @@ func (nw *Network) RunSchedule(sp ScheduleSpec) {
 				for _, n := range nw.Nodes {
 					if _, ok := nw.Partition[n.Idx]; !ok {
 						nw.Partition[n.Idx] = rng.Intn(2)
+					}
+				}
+			}
+		}
+		if pendingCloseLeave > 0 {
+			// the first leave has just been committed by some node: the second request
+			// follows within a few steps, so that it is committed three to four rounds
+			// after the first, around the round at which the first takes effect
+			seen := false
+			for _, q := range nw.Nodes {
+				if q.App == nil {
+					continue
+				}
+				for _, dl := range q.App.Delivered {
+					for _, rc := range dl.Resp.InternalTransactionReceipts {
+						if rc.Accepted && rc.InternalTransaction.Body.Type == hg.PEER_REMOVE {
+							seen = true
+						}
+					}
+				}
+			}
+			if seen {
+				st := step + rng.Intn(10)
+				acts[st] = append(acts[st], mAct{"leave"})
+				closeSecond = st
+				pendingCloseLeave--
+				nw.Res.count("second_leave_issued_right_after_the_first_was_committed", 1)
+				if sp.LagAtSecondChange {
+					// and one of the remaining validators falls behind for about three
+					// rounds: its witnesses of the coming rounds reach the others late and
+					// unevenly, so that nodes decide these rounds at different moments
+					cands := []*SimNode{}
+					for _, q := range nw.babblers() {
+						if nw.leaving[q.Idx] == nil && q.Core.Validators().ByID[q.ID] != nil {
+							cands = append(cands, q)
+						}
+					}
+					if len(cands) > 0 {
+						ss.lagger = cands[rng.Intn(len(cands))]
+						ss.lagUntil = st + 20 + rng.Intn(45)
 					}
 				}
 			}
